@@ -27,9 +27,6 @@ package verifier
 //@ func (Verifier).Verify
 //@   trusted
 //@   benign
-//@ func (*trust.Config).IsTrusted
-//@   trusted
-//@   pure
 
 // ---- C01 / C11: a credential verifies only if valid, untampered, current, unrevoked ----
 
